@@ -46,6 +46,10 @@ type POp struct {
 	// (writes, truncates of the rollback); A / C = bytes of the docs / meta block then in the files
 	A int `json:"a,omitempty"`
 	C int `json:"c,omitempty"`
+	// concf: a concurrent group (Group, Stagger) in which bulk FailBulk exceeds a file-size limit in its
+	// File write; Units = what happened, in lock order, read from the op log
+	FailBulk int     `json:"fail_bulk,omitempty"`
+	Units    []CUnit `json:"units,omitempty"`
 	Bulk int    `json:"bulk,omitempty"`
 	// conc: bulks submitted concurrently (start stagger in microseconds); Order = the order in
 	// which they reserved their docs offsets, read from the op log after the run
@@ -57,6 +61,15 @@ type POp struct {
 	T  int `json:"t"`
 	KD int `json:"kd"`
 	KM int `json:"km"`
+}
+
+// CUnit is one unit of a concurrent group as it ran under the writer's mutex.
+type CUnit struct {
+	Bulk  int    `json:"bulk"`
+	Ok    bool   `json:"ok"`             // both blocks written
+	File  string `json:"file,omitempty"` // failed unit: which write failed
+	Cut   int    `json:"cut,omitempty"`  // ... after how many bytes
+	Acked bool   `json:"acked"`          // the store's answer for this bulk
 }
 
 type Plan struct {
@@ -163,6 +176,7 @@ type runner struct {
 	res     *result
 	subm    []int // bulks submitted so far (plan indices, distinct)
 	pending *crashfs.State
+	cf      map[int]cfResp // answers of cfbulk calls by operation index
 }
 
 func (x *runner) newDir(st *crashfs.State) error {
@@ -251,6 +265,13 @@ func (x *runner) account(tr *crashfs.Trace, calls []string, upto int) ([][]tOp, 
 			fmt.Sscanf(c, "bulk:%d", &bi)
 			x.learnBulk(bi, tr, ws[j])
 		}
+		if strings.HasPrefix(c, "concf:") {
+			var oi int
+			fmt.Sscanf(c, "concf:%d", &oi)
+			if err := x.learnConcF(oi, tr, ws[j]); err != nil {
+				return nil, err
+			}
+		}
 		if strings.HasPrefix(c, "conc:") {
 			var oi int
 			fmt.Sscanf(c, "conc:%d", &oi)
@@ -264,7 +285,7 @@ func (x *runner) account(tr *crashfs.Trace, calls []string, upto int) ([][]tOp, 
 		for _, o := range ws[j] {
 			x.res.ops = append(x.res.ops, o.p)
 		}
-		if strings.HasPrefix(c, "bulk:") || strings.HasPrefix(c, "conc:") {
+		if strings.HasPrefix(c, "bulk:") || strings.HasPrefix(c, "conc:") || strings.HasPrefix(c, "concf:") {
 			x.res.ops = append(x.res.ops, pop{Kind: "A"})
 		}
 	}
@@ -362,6 +383,104 @@ func (x *runner) learnConc(oi int, tr *crashfs.Trace, w []tOp) error {
 	}
 	if len(op.Order) != len(op.Group) {
 		return fmt.Errorf("%w: %d docs writes for %d concurrent bulks", errHarness, len(op.Order), len(op.Group))
+	}
+	return nil
+}
+
+// learnConcF splits the operations of a concurrent group with a failing member into units (the
+// mutex serialises them: a successful unit ends with the fsync of its meta block, a failed one with
+// the second truncate of its rollback) and attributes them to the bulks.
+func (x *runner) learnConcF(oi int, tr *crashfs.Trace, w []tOp) error {
+	op := &x.res.plan.Ops[oi]
+	resp := x.cf[oi]
+	rawOf := map[uint64]int{} // raw docs length -> position in the group
+	for gi, bi := range op.Group {
+		raw := uint64(0)
+		for _, d := range x.res.plan.Bulks[bi] {
+			raw += 4 + uint64(len(d.Body))
+		}
+		if _, dup := rawOf[raw]; dup {
+			return fmt.Errorf("%w: concurrent bulks with equal raw size", errHarness)
+		}
+		rawOf[raw] = gi
+	}
+	failGi := -1
+	for gi, bi := range op.Group {
+		if bi == op.FailBulk {
+			failGi = gi
+		}
+	}
+	op.Units = nil
+	var cur []tOp
+	flush := func(ok bool) error {
+		gi := -1
+		var dfull, mdata []byte
+		dlen, mlen := -1, -1
+		for _, o := range cur {
+			if o.p.Kind != "W" {
+				continue
+			}
+			data := tr.Ops[o.idx].Data
+			if o.p.File == "docs" {
+				dlen = len(data)
+				dfull = data
+				if len(data) >= 17 {
+					if g, found := rawOf[binary.LittleEndian.Uint64(data[9:17])]; found {
+						gi = g
+					}
+				}
+			} else {
+				mlen = len(data)
+				mdata = data
+			}
+		}
+		if gi < 0 {
+			if ok {
+				return fmt.Errorf("%w: successful unit of an unknown bulk", errHarness)
+			}
+			gi = failGi
+		}
+		bi := op.Group[gi]
+		u := CUnit{Bulk: bi, Ok: ok, Acked: gi < len(resp.Acked) && resp.Acked[gi]}
+		if ok {
+			bb := &x.res.bulks[bi]
+			if !bb.known && len(dfull) >= 33 && len(mdata) >= 33 {
+				bb.dpay, bb.draw = dfull[33:], binary.LittleEndian.Uint64(dfull[9:17])
+				bb.mpay, bb.mraw = mdata[33:], binary.LittleEndian.Uint64(mdata[9:17])
+				bb.known = true
+			}
+		} else {
+			switch {
+			case dlen == resp.LD[gi]: // docs block complete: the meta write failed
+				u.File, u.Cut = "meta", max(mlen, 0)
+			default:
+				u.File, u.Cut = "docs", max(dlen, 0)
+			}
+		}
+		op.Units = append(op.Units, u)
+		cur = nil
+		return nil
+	}
+	sawTMeta := false
+	for _, o := range w {
+		cur = append(cur, o)
+		switch {
+		case o.p.Kind == "F" && o.p.File == "meta":
+			if err := flush(true); err != nil {
+				return err
+			}
+		case o.p.Kind == "T" && o.p.File == "meta":
+			sawTMeta = true
+		case o.p.Kind == "T" && o.p.File == "docs" && sawTMeta:
+			sawTMeta = false
+			if err := flush(false); err != nil {
+				return err
+			}
+		}
+	}
+	if len(cur) > 0 || len(op.Units) != len(op.Group) {
+		return fmt.Errorf("%w: %d units recognised for %d concurrent bulks (%d operations left over)", errHarness,
+			len(op.Units), len(op.Group), len(cur))
 	}
 	return nil
 }
@@ -702,6 +821,55 @@ func exec(plan Plan, tmp string) (res *result) {
 					return fail(err)
 				}
 			}
+		case "concf":
+			if x.child == nil {
+				op.Kind = "skip"
+				continue
+			}
+			x.child.Timeout = 12 * time.Second
+			q := cfReq{File: op.File, Cut: op.Cut, StaggerUs: op.Stagger}
+			for gi, bi := range op.Group {
+				q.Bulks = append(q.Bulks, plan.Bulks[bi])
+				if bi == op.FailBulk {
+					q.Fail = gi
+				}
+			}
+			extra, _ := json.Marshal(q)
+			x.calls = append(x.calls, fmt.Sprintf("concf:%d", i))
+			r, err := x.child.Call(storectl.Req{Op: "cfbulk", Extra: extra})
+			if err != nil {
+				res.obs = append(res.obs, obs{Died: true, Why: "concurrent bulks with a failing write: " + short(err.Error())})
+				res.plan.Ops = res.plan.Ops[:i+1]
+				res.plan.Ops[i].Kind = "restart"
+				return
+			}
+			var cr cfResp
+			json.Unmarshal(r.Extra, &cr)
+			if cr.Err == "unplaceable" {
+				op.Kind = "skip"
+				x.calls[len(x.calls)-1] = "q"
+				continue
+			}
+			op.File = cr.File
+			if x.cf == nil {
+				x.cf = map[int]cfResp{}
+			}
+			x.cf[i] = cr
+			if d, e1 := hex.DecodeString(cr.DHex); e1 == nil && len(d) >= 33 {
+				if m, e2 := hex.DecodeString(cr.MHex); e2 == nil && len(m) >= 33 {
+					bb := &res.bulks[op.FailBulk]
+					if !bb.known {
+						bb.dpay, bb.draw = d[33:], binary.LittleEndian.Uint64(d[9:17])
+						bb.mpay, bb.mraw = m[33:], binary.LittleEndian.Uint64(m[9:17])
+						bb.known = true
+					}
+				}
+			}
+			for _, bi := range op.Group {
+				submitted(bi)
+			}
+			crashedBefore = true
+			ingestAfterCrash = true
 		case "conc":
 			if x.child == nil {
 				continue
@@ -904,6 +1072,16 @@ func coqCase(res *result) (string, bool) {
 			fmt.Fprintf(&sb, "IBulk %d", o.Bulk)
 		case "fault":
 			fmt.Fprintf(&sb, "IFault %d %s %d %s", o.Bulk, casefile.Bool(o.File == "meta"), o.Cut, casefile.Bool(o.Acked))
+		case "concf":
+			sb.WriteString("IGroupBegin")
+			for _, u := range o.Units {
+				if u.Ok {
+					fmt.Fprintf(&sb, "; IBulk %d", u.Bulk)
+				} else {
+					fmt.Fprintf(&sb, "; IFault %d %s %d %s", u.Bulk, casefile.Bool(u.File == "meta"), u.Cut, casefile.Bool(u.Acked))
+				}
+			}
+			sb.WriteString("; IGroupEnd")
 		case "faultcrash":
 			fmt.Fprintf(&sb, "IFaultCrash %d %d %d", o.Bulk, o.A, o.C)
 		case "obs":
@@ -1008,7 +1186,7 @@ func coqCase(res *result) (string, bool) {
 				if (o.Kind == "bulk" || o.Kind == "crashin" || o.Kind == "fault" || o.Kind == "faultcrash") && o.Bulk == i {
 					return "", false
 				}
-				if o.Kind == "conc" {
+				if o.Kind == "conc" || o.Kind == "concf" {
 					for _, g := range o.Group {
 						if g == i {
 							return "", false
@@ -1138,6 +1316,45 @@ func (g *gen) concurrent() Plan {
 		p.Ops = append(p.Ops, POp{Kind: "restart"})
 	}
 	if g.r.Chance(1, 2) {
+		p.Bulks = append(p.Bulks, g.bulk(2))
+		p.Ops = append(p.Ops, POp{Kind: "bulk", Bulk: len(p.Bulks) - 1}, POp{Kind: "restart"})
+	}
+	return p
+}
+
+// a concurrent group of small bulks and one big bulk whose docs or meta write exceeds the file-size
+// limit, whatever the lock order; then observe, start, sometimes more
+func (g *gen) concFault() Plan {
+	p := Plan{Class: "conc-fault", Seed: g.r.U64(), Fault: true}
+	p.Ops = append(p.Ops, POp{Kind: "restart"})
+	nb := g.r.Range(0, 2)
+	for j := 0; j < nb; j++ {
+		p.Bulks = append(p.Bulks, g.bulk(3))
+		p.Ops = append(p.Ops, POp{Kind: "bulk", Bulk: len(p.Bulks) - 1})
+	}
+	var group, stagger []int
+	p.Bulks = append(p.Bulks, g.bulk(1)) // small, first
+	group, stagger = append(group, len(p.Bulks)-1), append(stagger, 0)
+	file := "docs"
+	spec := GenSpec{Seed: g.r.U64(), N: g.r.Range(10, 22), MinLen: 20, MaxLen: 60, FirstID: g.nextID + 1}
+	if g.r.Bool() {
+		// many documents with tiny bodies: the meta block is much longer than the docs block, so a limit
+		// exists that the docs block passes and the meta block exceeds
+		file = "meta"
+		spec = GenSpec{Seed: g.r.U64(), N: g.r.Range(18, 34), MinLen: 1, MaxLen: 3, FirstID: g.nextID + 1}
+	}
+	big := spec.docs()
+	g.nextID += len(big)
+	p.Bulks = append(p.Bulks, big)
+	fb := len(p.Bulks) - 1
+	group, stagger = append(group, fb), append(stagger, g.r.Intn(250))
+	if g.r.Chance(1, 3) {
+		p.Bulks = append(p.Bulks, g.bulk(2))
+		group, stagger = append(group, len(p.Bulks)-1), append(stagger, g.r.Intn(250))
+	}
+	p.Ops = append(p.Ops, POp{Kind: "concf", Group: group, Stagger: stagger, FailBulk: fb, File: file, Cut: pickT(g.r, 200)})
+	p.Ops = append(p.Ops, POp{Kind: "obs"}, POp{Kind: "restart"})
+	if g.r.Chance(1, 3) {
 		p.Bulks = append(p.Bulks, g.bulk(2))
 		p.Ops = append(p.Ops, POp{Kind: "bulk", Bulk: len(p.Bulks) - 1}, POp{Kind: "restart"})
 	}
@@ -1314,6 +1531,14 @@ func main() {
 		for i := 0; i < nFault; i++ {
 			g.nextID = 0
 			plans = append(plans, g.faulty())
+		}
+		nCF := 60
+		if *tier == "thorough" {
+			nCF = 500
+		}
+		for i := 0; i < nCF; i++ {
+			g.nextID = 0
+			plans = append(plans, g.concFault())
 		}
 		for i := 0; i < nBig; i++ {
 			bigs = append(bigs, genBigTrial(g.r, *tier == "thorough"))
